@@ -168,3 +168,14 @@ Qed.
 
 Example s2_exclusive : exclD s2c.
 Proof. apply (claims_exclusiveD 8 Qx true). apply lenient_creach. constructor. Qed.
+
+(* executions per key and revision in the two-handle run with the short-cut: each at most once;
+   key 1 (reads nothing) once in three revisions, key 3 not in revision 2 *)
+Example run2c_counts :
+  (count_exec 4 1 (cD_log s2c), count_exec 4 2 (cD_log s2c), count_exec 4 3 (cD_log s2c),
+   count_exec 1 1 (cD_log s2c), count_exec 1 2 (cD_log s2c), count_exec 3 2 (cD_log s2c),
+   count_exec 3 3 (cD_log s2c)) = (1, 1, 1, 1, 0, 0, 1)%nat.
+Proof. vm_compute. reflexivity. Qed.
+
+Example s2c_reachable : creachD 8 Qx true s2c.
+Proof. apply lenient_creach. constructor. Qed.
